@@ -121,6 +121,13 @@ func genC04(r *Rand, tier string) *Case {
 		c.Server.TLS = "empty"
 	}
 	kind := r.Intn(10)
+	if r.Chance(1, 300) {
+		// (only message types that are silent in that phase: the harness keeps
+		// every output byte and write event, which would count as growth)
+		phase := r.Pick("copy", "ready", "discard")
+		t := map[string]string{"copy": "HS", "ready": "H", "discard": "HEPBDC"}[phase]
+		return c04Flood(phase, t[r.Intn(len(t))], int64(r.PickInt(100000, 400000, 1000000)), limit)
+	}
 	switch {
 	case kind == 0: // random bytes on a fresh connection
 		c.Conns = []ConnCase{{Steps: []Step{{Msgs: []pgwire.FMsg{{K: "raw", Data: r.Bytes(r.PickInt(1, 4, 8, 9, 30, 200))}}}}, Cuts: genCuts(r)}}
@@ -229,6 +236,25 @@ func c04Judge(c *Case, r *Result, base *Result) []Violation {
 				if k > 0 && a > bound {
 					add("allocation-exceeds-limit", "allocation", fmt.Sprintf("conn %d: one step allocated %d bytes with limit %d (bound %d)", i, a, eff, bound))
 				}
+			}
+		}
+		// S4b: a long run of small messages grows neither the stacks nor the live heap
+		if cs.cc.MeasureLive && len(cs.LiveStack) > 1 {
+			const slack = 8 << 20
+			var maxStack, maxHeap uint64
+			for k := range cs.LiveStack {
+				if cs.LiveStack[k] > maxStack {
+					maxStack = cs.LiveStack[k]
+				}
+				if cs.LiveHeap[k] > maxHeap {
+					maxHeap = cs.LiveHeap[k]
+				}
+			}
+			if g := maxStack - cs.LiveStack[0]; maxStack > cs.LiveStack[0] && g > slack {
+				add("stack-grows-with-message-count", "stack-growth", fmt.Sprintf("conn %d: goroutine stacks grew by %d bytes while a run of small messages was served (bound %d)", i, g, slack))
+			}
+			if g := maxHeap - cs.LiveHeap[0]; maxHeap > cs.LiveHeap[0] && g > slack+uint64(4*eff) {
+				add("live-heap-grows-with-message-count", "heap-growth", fmt.Sprintf("conn %d: live heap grew by %d bytes while a run of small messages was served (bound %d)", i, g, slack+4*eff))
 			}
 		}
 		// S5: a broken connection does a prefix of what the intact one does
@@ -376,8 +402,34 @@ func checkC04(x *Exec, c *Case) ([]Violation, bool) {
 	return nil, true
 }
 
+// c04Flood is a hostile but well-framed run of n body-less messages of type t
+// in a given protocol phase (none of them produces output).
+func c04Flood(phase string, t byte, n int64, limit int) *Case {
+	c := &Case{Variant: "flood-" + phase + "-" + string(t), Server: ServerCfg{Limit: limit}, Programs: map[string]*Program{}}
+	c.Programs["cp"] = &Program{Stmts: []*StmtProg{{Cols: []ColSpec{{Name: "a", OID: 25}}, Ops: []Op{{K: "copyin", Fmt: 0}, {K: "copyall"}, {K: "complete", Tag: "COPY 1"}}}}}
+	flood := pgwire.FMsg{K: "flood", T: t, Rep: n}
+	var msgs []pgwire.FMsg
+	switch phase {
+	case "copy":
+		msgs = []pgwire.FMsg{{K: "Q", S1: "cp"}, {K: "d", Data: []byte("row\n")}, flood, {K: "c"}}
+	case "ready":
+		msgs = []pgwire.FMsg{flood, {K: "S"}}
+	case "discard":
+		msgs = []pgwire.FMsg{{K: "B", S1: "", S2: "nope"}, flood, {K: "S"}}
+	}
+	steps := []Step{{Msgs: []pgwire.FMsg{startupMsg("u", "d")}}, {Msgs: msgs}, {Msgs: []pgwire.FMsg{{K: "X"}}}}
+	c.Conns = []ConnCase{{Steps: steps, MeasureLive: true}}
+	return withBystander(c)
+}
+
 func c04Fixed(tier string) []*Case {
 	out := c04Corpus()
+	for _, f := range []struct {
+		phase string
+		t     byte
+	}{{"copy", 'H'}, {"copy", 'S'}, {"ready", 'H'}, {"discard", 'H'}, {"discard", 'E'}} {
+		out = append(out, c04Flood(f.phase, f.t, 400000, 4096))
+	}
 	// handcrafted malformed-last cases: nothing may be executed for them
 	mk := func(last pgwire.FMsg, pre ...pgwire.FMsg) *Case {
 		c := &Case{Variant: "malformed-last", Server: ServerCfg{Limit: 4096}, Programs: map[string]*Program{}, Expect: map[string]any{"malformed_last": true}}
